@@ -32,6 +32,12 @@ def check(chk):
     _model_conj(chk)
     _guard(chk)
     _stage_order(chk)
+    # the cross-covariance that is decomposed is that of the FRACTIONALLY WHITENED fields: the whitening matrix is
+    # (X^H X / n) ** ((alpha - 1) / 2) with the conjugation convention of the cross-covariance, and the stored inverse is
+    # the inverse of that matrix (kernel rules shared with C16)
+    from . import c16 as _c16k
+    from .c01 import _Relabel as _RLk
+    _c16k._kernel(_RLk(chk, "ADJOINT", "WHITEN"), chk.pm.cls("xeofs.preprocessing.whitener.Whitener"))
     # queries leave the stored decomposition alone (shared with C14): an accessor that rescales the stored arrays in place
     # changes what every later scores() / components() / transform() returns
     from . import c14 as _c14q
